@@ -61,14 +61,15 @@ theorem stateLive_nodup (s : State V) : (stateLive s).Nodup :=
 /-- one step of a history in the small regime -/
 theorem step_inv (n : Nat) (s0 s1 : State V) (op : Op V) (l0 : List (Id × V))
     (hinv : Inv s0) (hn1 : n ≤ 2 * s0.M + 1) (hn2 : n ≤ s0.efC)
-    (hfresh : ∀ i ∈ addedIds [op], i ≠ 0 ∧ s0.nodes.contains i = false)
+    (hfresh : ∀ i ∈ addedIds [op], (i = 0 → s0.nextID = 0) ∧ s0.nodes.contains i = false)
     (hpick : ∀ e, op = .flush e → e ∈ flushChoices s0)
     (hpickA : ∀ id v l p, op = .add id v l p → addFlushes s0 id = true → p ∈ flushChoices s0)
     (hcount : s1.nodes.count ≤ n) (hperm : (stateLive s0).Perm l0)
     (hstep : step m s0 op = .ok s1) :
     Inv s1 ∧ s1.M = s0.M ∧ s1.efC = s0.efC ∧ s1.efS = s0.efS ∧ s1.dim = s0.dim ∧
     (∀ j, s1.nodes.contains j = true → s0.nodes.contains j = true ∨ j ∈ addedIds [op]) ∧
-    (stateLive s1).Perm (Flat.specStep m s0.dim l0 op.toFlat) := by
+    (stateLive s1).Perm (Flat.specStep m s0.dim l0 op.toFlat) ∧
+    (0 ∉ addedIds [op] → s1.nextID = s0.nextID) := by
   cases op with
   | add x v level pk =>
     simp only [step] at hstep
@@ -76,9 +77,12 @@ theorem step_inv (n : Nat) (s0 s1 : State V) (op : Op V) (l0 : List (Id × V))
     · next s' e hadd =>
       simp only [Except.ok.injEq] at hstep; subst hstep
       obtain ⟨hx0, hxf⟩ := hfresh x (by simp [addedIds, Flat.addedIds, Op.toFlat])
-      obtain ⟨hinv', heff⟩ := add_inv m s0 s' x v level pk e hinv hxf
+      obtain ⟨hinv', heff, hnid⟩ := add_inv m s0 s' x v level pk e hinv hxf hx0
         (fun hd => hpickA x v level pk rfl (by simp [addFlushes, hd])) (by omega) (by omega) hadd
-      refine ⟨hinv', heff.M, heff.efC, heff.efS, heff.dim, ?_, ?_⟩
+      refine ⟨hinv', heff.M, heff.efC, heff.efS, heff.dim, ?_, ?_, ?_⟩
+      rotate_left 2
+      · intro h0
+        exact hnid (fun hx => h0 (by simp [addedIds, Flat.addedIds, Op.toFlat, hx]))
       · intro j hj
         cases he : e with
         | some err =>
@@ -133,7 +137,8 @@ theorem step_inv (n : Nat) (s0 s1 : State V) (op : Op V) (l0 : List (Id × V))
   | remove id =>
     simp only [step, Except.ok.injEq] at hstep; subst hstep
     obtain ⟨hinv', hnodes, hdim, hM, hC, hS, _, hdel⟩ := remove_inv s0 id hinv
-    refine ⟨hinv', hM, hC, hS, hdim, fun j hj => Or.inl (by rw [hnodes] at hj; exact hj), ?_⟩
+    refine ⟨hinv', hM, hC, hS, hdim, fun j hj => Or.inl (by rw [hnodes] at hj; exact hj), ?_,
+      fun _ => by simp only [remove]; split; rfl; split <;> rfl⟩
     simp only [Op.toFlat, Flat.specStep]
     refine List.Perm.trans ?_ (hperm.filter _)
     apply perm_of_mem_iff (stateLive_nodup _) ((stateLive_nodup s0).sublist List.filter_sublist)
@@ -152,7 +157,8 @@ theorem step_inv (n : Nat) (s0 s1 : State V) (op : Op V) (l0 : List (Id × V))
   | flush e =>
     simp only [step, Except.ok.injEq] at hstep; subst hstep
     obtain ⟨hinv', hdim, hM, hC, hS, hlive, hvec, hsub, _, _, _⟩ := flush_inv s0 e hinv (hpick e rfl)
-    refine ⟨hinv', hM, hC, hS, hdim, fun j hj => Or.inl (hsub j hj), ?_⟩
+    refine ⟨hinv', hM, hC, hS, hdim, fun j hj => Or.inl (hsub j hj), ?_,
+      fun _ => by rw [flushTo_eq]; split <;> rfl⟩
     simp only [Op.toFlat, Flat.specStep]
     refine List.Perm.trans ?_ hperm
     apply perm_of_mem_iff (stateLive_nodup _) (stateLive_nodup s0)
@@ -172,7 +178,7 @@ theorem step_inv (n : Nat) (s0 s1 : State V) (op : Op V) (l0 : List (Id × V))
 theorem run_inv (n : Nat) :
     ∀ (ops : List (Op V)) (s0 s : State V) (l0 : List (Id × V)),
       Inv s0 → n ≤ 2 * s0.M + 1 → n ≤ s0.efC →
-      (∀ i ∈ addedIds ops, i ≠ 0 ∧ s0.nodes.contains i = false) → (addedIds ops).Nodup →
+      (∀ i ∈ addedIds ops, (i = 0 → s0.nextID = 0) ∧ s0.nodes.contains i = false) → (addedIds ops).Nodup →
       validPicks m s0 ops = true → residentsLe m n s0 ops = true →
       (stateLive s0).Perm l0 →
       run m s0 ops = .ok s →
@@ -198,7 +204,7 @@ theorem run_inv (n : Nat) :
       have hsub : ∀ i ∈ addedIds [op], i ∈ addedIds (op :: rest) := by
         intro i hi
         cases op <;> simp_all [addedIds, Flat.addedIds, Op.toFlat]
-      obtain ⟨hinv1, hM, hC, hS, hdim, hres, hperm1⟩ := step_inv m n s0 s1 op l0 hinv hn1 hn2
+      obtain ⟨hinv1, hM, hC, hS, hdim, hres, hperm1, hnid⟩ := step_inv m n s0 s1 op l0 hinv hn1 hn2
         (fun i hi => hfresh i (hsub i hi))
         (by intro e' hop; subst hop; simpa using hv.1)
         (by
@@ -216,9 +222,20 @@ theorem run_inv (n : Nat) :
         | add id v l p => rw [addedIds_cons_add] at hnd; exact (List.nodup_cons.1 hnd).2
         | remove id => exact hnd
         | flush e => exact hnd
-      have hfresh' : ∀ i ∈ addedIds rest, i ≠ 0 ∧ s1.nodes.contains i = false := by
+      have hfresh' : ∀ i ∈ addedIds rest, (i = 0 → s1.nextID = 0) ∧ s1.nodes.contains i = false := by
         intro i hi
-        refine ⟨(hfresh i (hrestsub i hi)).1, ?_⟩
+        refine ⟨fun hi0 => ?_, ?_⟩
+        · rw [hnid, (hfresh i (hrestsub i hi)).1 hi0]
+          subst hi0
+          cases op with
+          | add id v l p =>
+            rw [addedIds_cons_add] at hnd
+            simp only [addedIds, Flat.addedIds, Op.toFlat, List.map_cons, List.map_nil,
+              List.mem_singleton]
+            intro hh; subst hh
+            exact (List.nodup_cons.1 hnd).1 hi
+          | remove id => simp [addedIds, Flat.addedIds, Op.toFlat]
+          | flush e => simp [addedIds, Flat.addedIds, Op.toFlat]
         cases hc : s1.nodes.contains i with
         | false => rfl
         | true =>
@@ -240,7 +257,7 @@ theorem run_inv (n : Nat) :
       rw [hdim] at r8
       simpa using r8
 
-/-- the small regime of a history, as one decidable predicate: fresh non-zero ids, allowed
+/-- the small regime of a history, as one decidable predicate: fresh ids (0 allowed), allowed
     flush picks, never more than `n ≤ min (2M+1) efConstruction` resident vertices -/
 def smallRegime (dim M efC efS n : Nat) (ops : List (Op V)) : Bool :=
   freshAdds ops && validPicks m (HNSW.init dim M efC efS) ops &&
@@ -263,9 +280,9 @@ theorem regime_facts (dim M efC efS n : Nat) (ops : List (Op V)) (s : State V)
     (stateLive s).Perm (liveSpec m dim ops) := by
   simp only [smallRegime, Bool.and_eq_true, decide_eq_true_eq] at hreg
   obtain ⟨⟨⟨⟨hf, hv⟩, hr⟩, hn1⟩, hn2⟩ := hreg
-  simp only [freshAdds, Bool.and_eq_true, List.all_eq_true, bne_iff_ne, ne_eq] at hf
+  simp only [freshAdds] at hf
   have := run_inv m n ops (HNSW.init dim M efC efS) s [] (init_inv dim M efC efS) hn1 hn2
-    (fun i hi => ⟨hf.1 i hi, by simp [HNSW.init, IdMap.contains]⟩) ((nodupB_iff _).1 hf.2)
+    (fun i hi => ⟨fun _ => rfl, by simp [HNSW.init, IdMap.contains]⟩) ((nodupB_iff _).1 hf)
     hv hr (by rw [stateLive_init]) hrun
   exact this
 
